@@ -458,18 +458,25 @@ Proof.
     + apply Permutation_refl.
 Qed.
 
+Local Opaque sift_up sift_down.
+
 Lemma heap_insert_perm h e : Permutation (heap_insert h e) (e :: h).
 Proof. unfold heap_insert. rewrite sift_up_perm. perm_solve. Qed.
 
 Lemma heap_remove_some h t h' : heap_remove h = (Some t, h') -> Permutation h (t :: h').
 Proof.
-  unfold heap_remove. destruct h as [|top rest]; [discriminate|].
-  destruct rest as [|x r]; intros H; injection H as <- <-; [apply Permutation_refl|].
-  apply perm_skip. symmetry. rewrite sift_down_perm.
-  assert (Hl : last r x = last (x :: r) x) by (destruct r; reflexivity).
-  rewrite Hl.
-  assert (E : x :: r = removelast (x :: r) ++ [last (x :: r) x]) by (apply app_removelast_last; discriminate).
-  transitivity (removelast (x :: r) ++ [last (x :: r) x]); [perm_solve|rewrite <- E; apply Permutation_refl].
+  destruct h as [|top [|x r]]; intros H.
+  - discriminate.
+  - cbn in H. injection H as <- <-. apply Permutation_refl.
+  - set (L := last r x :: removelast (x :: r)) in *.
+    change (heap_remove (top :: x :: r)) with (Some top, sift_down (length L) L 1) in H.
+    assert (E1 : t = top) by congruence.
+    assert (E2 : h' = sift_down (length L) L 1) by congruence.
+    subst t h'. apply perm_skip. symmetry. rewrite sift_down_perm. subst L.
+    assert (Hl : last r x = last (x :: r) x) by (destruct r; reflexivity).
+    rewrite Hl.
+    assert (E : x :: r = removelast (x :: r) ++ [last (x :: r) x]) by (apply app_removelast_last; discriminate).
+    transitivity (removelast (x :: r) ++ [last (x :: r) x]); [perm_solve|rewrite <- E; apply Permutation_refl].
 Qed.
 Lemma heap_remove_nonempty h : h <> [] -> exists t h', heap_remove h = (Some t, h').
 Proof.
@@ -526,7 +533,7 @@ Proof.
   inversion H; subst. split.
   - intros _. destruct w; [lia|]. cbn. discriminate.
   - intros Hlt. assert (Hn : firstn w (skipn w (z :: l)) <> []).
-    { intros E. apply (f_equal (@length _)) in E. rewrite firstn_length, skipn_length in E. cbn in E. lia. }
+    { intros E. apply (f_equal (@length _)) in E. rewrite firstn_length, skipn_length in E. cbn [length] in E, Hlt. lia. }
     destruct (firstn w (skipn w (z :: l))); [congruence|discriminate].
 Qed.
 
@@ -589,7 +596,7 @@ Lemma lifos_set i (ls : list (list task)) : i < length ls ->
             forall v, Permutation (concat (set_nth i v ls)) (v ++ R).
 Proof.
   intros H. destruct (flat_set_nth (fun x : list task => x) [] i ls H) as (R & H1 & H2).
-  exists R. rewrite !concat_flat_map. split; auto. intros v. rewrite concat_flat_map. auto.
+  exists R. split; [rewrite concat_flat_map; exact H1|]. intros v. rewrite concat_flat_map. apply H2.
 Qed.
 
 Lemma pop_lifos_some order : forall ls ls' t, pop_lifos ls order = (ls', Some t) ->
